@@ -190,6 +190,11 @@ def run_seq(ctx, rep, spec, sib, ops, start=None, source="plotgen", reuse=False)
         if d is not None:
             rep.fail(f"step {n} ({op['op']}): contents differ from the pure operation: {d}", case); return
         if os.path.exists(leanio.DRIVER):
+            cert = tastelib.wf_certificate(out, leanio)
+            if cert is None:
+                rep.count("wf-certificate-passes")
+            elif cert != "names":
+                rep.tie(f"step {n} ({op['op']}): the intermediate result does not pass the Lean well-formedness certificate ({cert})", case)
             why = writers.global_header_theorem_applies(out, leanio)
             if why:
                 rep.tie(f"step {n} ({op['op']}): global header of the intermediate result: {why}", case)
